@@ -296,6 +296,19 @@ def run_property(mod, pid, tier, seed, nshards):
     subs = {s.name: s for s in mod.subchecks(ctx)}
     violations = []
     seen = set()
+    # regression tier: committed shrunk cases (from fixed defects and seeded changes) are replayed on every run
+    import glob
+    for path in sorted(glob.glob(os.path.join(VERIF, "regress", pid, "*.json"))):
+        data = json.load(open(path))
+        if data.get("sub") not in subs:
+            continue
+        case = dec_case(data["case"])
+        fail = ctx.replay_case(subs[data["sub"]], case)
+        merged.classes["regression-replays"] = merged.classes.get("regression-replays", 0) + 1
+        if fail is not None:
+            failures.append({"sub": data["sub"], "case": _jsonable(case), "fail": fail.to_json()})
+    merged.evaluations += ctx.stats.evaluations
+    merged.nontrivial.update(ctx.stats.nontrivial)
     for f in failures:
         case = dec_case(f["case"])
         key = (f["sub"], case_hash(case))
